@@ -63,6 +63,39 @@ class _Suspend:
         yield self
 
 
+class HostileError(Exception):
+    """exception whose attributes raise when inspected (hostile to classifiers)"""
+
+    @property
+    def status(self):
+        raise RuntimeError("hostile attribute")
+
+
+def make_exc(kind: str) -> BaseException:
+    from redress.errors import (AbortRetryError, CircuitOpenError, RetryExhaustedError, StopReason)
+
+    if kind == "error":
+        return RuntimeError("injected")
+    if kind == "kbd":
+        return KeyboardInterrupt()
+    if kind == "sysexit":
+        return SystemExit(4)
+    if kind == "cancel":
+        return asyncio.CancelledError()
+    if kind == "genexit":
+        return GeneratorExit()
+    if kind == "abort":
+        return AbortRetryError()
+    if kind == "circuitopen":
+        return CircuitOpenError("open")
+    if kind == "nested":
+        return RetryExhaustedError(stop_reason=StopReason.MAX_ATTEMPTS_GLOBAL, attempts=1,
+                                   last_class=None, last_exception=None, last_result=None)
+    if kind == "hostile":
+        return HostileError("hostile")
+    raise AssertionError(kind)
+
+
 def ticks(x: float | None) -> int:
     if x is None:
         return NONE
@@ -113,6 +146,9 @@ class Env:
         self.bsleep_exc: BaseException | None = None
         self.ninv = 0
         self.hook_calls = {"metric": 0, "log": 0, "bsleep": 0}
+        self.site_fault: dict | None = None
+        self.site_calls: dict[str, int] = {}
+        self.call_index = 0
 
     # ------------------------------------------------------------------ helpers
     def now(self) -> int:
@@ -173,11 +209,8 @@ class Env:
             from redress.errors import RetryExhaustedError, StopReason
             exc = RetryExhaustedError(stop_reason=StopReason.MAX_ATTEMPTS_GLOBAL, attempts=1,
                                       last_class=None, last_exception=None, last_result=None)
-        elif out == "circuitopen":
-            from redress.errors import CircuitOpenError
-            exc = CircuitOpenError("open")
-        elif out == "genexit":
-            exc = GeneratorExit()
+        elif out in ("circuitopen", "genexit", "hostile", "error"):
+            exc = make_exc(out)
         else:
             raise AssertionError(out)
         self.raised.append(exc)
@@ -197,6 +230,7 @@ class Env:
         return self._ec(k)
 
     def classifier(self, exc: BaseException):
+        self._fault("classifier")
         n = self._exc_id(exc)
         if n == NONE:
             n = NOT_OURS
@@ -208,6 +242,7 @@ class Env:
         return self._classification(k, ra)
 
     def rclassifier(self, value: Any):
+        self._fault("rclassifier")
         mine = any(value is v for v in self.values)
         n = value.attempt if mine else NOT_OURS
         if not mine or value.klass is None:
@@ -230,6 +265,7 @@ class Env:
         env = self
 
         def record(n, k, ra, prev, rem, cause):
+            env._fault("strategy")
             sc = env._next("strategy")
             ret = (sc or {}).get("ret") or {"kind": "val", "v": 0}
             env.trace.append({"e": "strategy", "which": which, "n": n, "k": k, "ra": ra,
@@ -258,12 +294,33 @@ class Env:
     def handler(self, ctx, sleep_s):
         from redress.sleep import SleepDecision
 
+        self._fault("handler")
         sc = self._next("handler")
         dec = sc["dec"] if sc else "sleep"
         self.trace.append({"e": "handler", "n": getattr(ctx, "attempt", NOT_OURS),
                            "sleep": ticks(sleep_s), "dec": dec, "t": self.now()})
         return {"sleep": SleepDecision.SLEEP, "defer": SleepDecision.DEFER,
                 "abort": SleepDecision.ABORT}[dec]
+
+    def _fault(self, site: str) -> None:
+        """C08 fault enumeration: raise the configured exception at the k-th call of a site."""
+        f = self.site_fault
+        if not f or f.get("site") != site:
+            return
+        self.site_calls[site] = self.site_calls.get(site, 0) + 1
+        if f.get("at", 1) == self.site_calls[site] and (f.get("call") is None
+                                                         or f["call"] == self.call_index):
+            self.trace.append({"e": "fault", "site": site, "kind": f["kind"]})
+            raise make_exc(f["kind"])
+
+    def astart(self, ctx) -> None:
+        self.trace.append({"e": "astart", "n": ctx.attempt})
+        self._fault("astart")
+
+    def aend(self, ctx) -> None:
+        self.trace.append({"e": "aend", "n": ctx.attempt,
+                           "decision": ctx.decision.value if ctx.decision is not None else "-"})
+        self._fault("aend")
 
     def _hook_raises(self, name: str) -> None:
         self.hook_calls[name] += 1
@@ -272,6 +329,7 @@ class Env:
             raise f["exc"]()
 
     def _bsleep_common(self, sleep_s) -> None:
+        self._fault("bsleep")
         sc = self._next("bsleep")
         fault = sc.get("fault", "none") if sc else "none"
         self.trace.append({"e": "bsleep", "sleep": ticks(sleep_s), "fault": fault, "t": self.now()})
@@ -305,6 +363,7 @@ class Env:
         self.clock.advance(max(0, ticks(s)))
 
     def _sleep_common(self, s: float) -> None:
+        self._fault("sleeper")
         sc = self._next("sleep")
         adv = sc["adv"] if sc else "exact"
         t = self.now()
